@@ -215,6 +215,8 @@ def run_check(pid, tier, check):
         only = os.environ.get("VERIF_ONLY")  # development aid: substring filter on case names (not used by registered commands)
         if only:
             cases = [c for c in cases if only in c["name"]]
+        if os.environ.get("VERIF_ONLY_T"):  # development aid: only the cases that the thorough tier adds to the quick tier
+            cases = [c for c in cases if "quick" not in c.get("tiers", ["quick", "thorough"])]
         if not cases:
             continue
         ecases = []
